@@ -1416,6 +1416,9 @@ impl HashColumn {
 				tables.value[record.table.size_tier() as usize].validate_plan(record.index, log)?;
 			},
 			LogAction::InsertRefCount(record) => {
+				if tables.ref_count.is_none() {
+					return Err(Error::Corruption("Unexpected ref count log record".to_string()))
+				}
 				if tables.get_ref_count().id == record.table {
 					tables.get_ref_count().validate_plan(record.index, log)?;
 				} else if let Some(table) = reindex
